@@ -42,25 +42,49 @@ structure LState (F : Type) where
   consts : Array (Val F)
   pending : List (Root F)        -- head = most recently pushed
   done : List (Root F)           -- ghost: roots laid out so far, newest first
+  /-- ghost (C06): operand depth, relative to the frame base, at which each instruction is entered -/
+  depths : Array Nat := #[]
+  /-- ghost (C06): depth at which the next instruction will be entered -/
+  dep : Nat := 0
+  /-- ghost (C06): depth at which each pending root starts (parallel to `pending`) -/
+  pendDep : List Nat := []
 
 variable {F : Type}
 
 def jumpIf (onTrue : Bool) : Instruction := if onTrue then .jumpIfTrue else .jumpIfFalse
 
+/-- ghost (C06): operand depth after the instruction on its fall-through edge, entered at depth `k`
+(`JumpTo`: the depth the enclosing expression would have produced, the instruction after it is not reached
+from it) -/
+def fall (i : Instruction) (o : Option Nat) (k : Nat) : Nat :=
+  match i with
+  | .put | .putValue | .resolve | .jumpTo => k + 1
+  | .pushValue | .updateValue | .endSideEffect | .jumpIfTrue | .jumpIfFalse | .apply | .makePair | .reapply
+  | .applyType => k - 1
+  | .makeList => k - o.getD 0 + 1
+  | .invalid | .startSideEffect | .and | .or | .emptyApply | .endExpression
+  | .opposite | .absoluteValue | .bitwiseNot | .not | .tis | .typeOf | .accessLeftInternal
+  | .accessRightInternal | .accessLengthInternal => k
+  | _ => k - 1
+
 namespace LState
 
 def push (s : LState F) (i : Instruction) (d : Option Nat) : LState F :=
-  { s with instrs := s.instrs.push (i, d) }
+  { s with instrs := s.instrs.push (i, d), depths := s.depths.push s.dep, dep := fall i d s.dep }
 
-/-- a fresh constant and the instruction that refers to it -/
+/-- a fresh constant and the instruction that refers to it (`Put` / `Resolve`: one operand more) -/
 def pushConst (s : LState F) (i : Instruction) (v : Val F) : LState F :=
-  { s with instrs := s.instrs.push (i, some s.consts.size), consts := s.consts.push v }
+  { s with instrs := s.instrs.push (i, some s.consts.size), consts := s.consts.push v,
+           depths := s.depths.push s.dep, dep := s.dep + 1 }
 
 def pushJump (s : LState F) (target : Nat) : LState F :=
   { s with jumps := s.jumps.push target }
 
+/-- a nested `{}` body starts at depth 0; a conditional body / right operand of `&&`,`||` starts one below the
+depth after the `PutValue` resp. `And`/`Or` that was just emitted (the tested operand has been popped) -/
 def pushRoot (s : LState F) (r : Root F) : LState F :=
-  { s with pending := r :: s.pending }
+  { s with pending := r :: s.pending,
+           pendDep := (match r.kind with | .ref _ => 0 | .code _ => s.dep - 1) :: s.pendDep }
 
 end LState
 
@@ -90,7 +114,9 @@ def finishChain (cur : Nat) (s2 : LState F) (items : List (Expr F × Nat)) : LSt
   | [] => s2
   | it :: its =>
     let join := s2.jumps.size
-    { s2.pushJump s2.instrs.size with pending := armRoots cur join (it :: its) ++ s2.pending }
+    { s2.pushJump s2.instrs.size with
+        pending := armRoots cur join (it :: its) ++ s2.pending,
+        pendDep := List.replicate (it :: its).length (s2.dep - 1) ++ s2.pendDep }
 
 /-- an else-chain without a final arm emits nothing more; without any arm at all (not a shape of the
 language) the value is `$` -/
@@ -160,7 +186,8 @@ def addTerms (start : Nat) (last : Option Instr) : List Instr → LState F → L
 
 /-- lay out one root: patch its jump entry, main line, terminators -/
 def layoutRoot (bodies : List (Nat × Expr F)) (r : Root F) (s : LState F) : LState F :=
-  let s1 : LState F := { s with jumps := s.jumps.setIfInBounds r.patch s.instrs.size, done := r :: s.done }
+  let s1 : LState F := { s with jumps := s.jumps.setIfInBounds r.patch s.instrs.size, done := r :: s.done,
+                                 dep := s.pendDep.headD 0, pendDep := s.pendDep.tail }
   let s2 := match r.kind with
     | .code e => emit r.patch r.containing e s1
     | .ref id => match lookupBody bodies id with
@@ -202,7 +229,7 @@ program is a new jump entry, the program itself (body `0` of the table) is the o
 def startState (s0 : Prog F) : LState F :=
   let entry := s0.jumps.size
   { instrs := s0.instrs, jumps := s0.jumps.push s0.instrs.size, consts := s0.consts,
-    pending := [⟨.ref 0, entry, [(.endExpression, none)], entry⟩], done := [] }
+    pending := [⟨.ref 0, entry, [(.endExpression, none)], entry⟩], done := [], depths := Array.replicate s0.instrs.size 0, dep := 0, pendDep := [0] }
 
 def compileState (s0 : Prog F) (p : Program F) : LState F :=
   layoutRoots p.bodies (bodiesSize p.bodies + 1) (startState s0)
